@@ -29,6 +29,7 @@ class FastEngine(Engine):
                     elif isinstance(v, RcV): slot = Slot(v.cell, 0)
                     elif isinstance(v, Cell): slot = Slot(v.c, 0)
                     elif isinstance(v, Agg) and v.tag == "Box": slot = v.f[0].f[0]
+                    elif isinstance(v, (StrV, VecV)): pass
                     else: raise TypeError(f"deref of {v!r} in {s}")
                 elif k == "i": slot = Slot(slot.c[slot.k].items, fr.locals[arg].v)
                 else: slot = Slot(slot.c[slot.k].items, arg)
@@ -223,7 +224,7 @@ class FastEngine(Engine):
         fr = Frame(f)
         for i, a in zip(f.args, args): fr.locals[i] = a
         self.depth += 1
-        if self.depth > 2000: raise Panic("recursion budget exceeded in " + f.name)
+        if self.depth > self.max_depth: raise Panic("recursion budget exceeded (%d interpreter frames) in %s" % (self.max_depth, f.name))
         if not hasattr(self, "stack"): self.stack = []
         self.stack.append([f.name, "bb0"])
         bb = "bb0"
